@@ -23,3 +23,11 @@ package printer
 //@ trace helper ifNotToken := [($1 != nil)]  => nil || [!(($1 != nil))]  => $2
 //@ trace helper write := [(len($1) == 0)]  || [!((len($1) == 0)) && ($0.state == 0) && bytes.HasPrefix($1, "<?") && ($0.last != nil) && isValidVarName($0.last[(len($0.last) - 1)]) && isValidVarName($1[0])] store &$0.state := 1; $0.output.Write(" "); store &$0.last := $1; $0.output.Write($1) || [!((len($1) == 0)) && ($0.state == 0) && bytes.HasPrefix($1, "<?") && ($0.last != nil) && isValidVarName($0.last[(len($0.last) - 1)]) && !(isValidVarName($1[0]))] store &$0.state := 1; store &$0.last := $1; $0.output.Write($1) || [!((len($1) == 0)) && ($0.state == 0) && bytes.HasPrefix($1, "<?") && ($0.last != nil) && !(isValidVarName($0.last[(len($0.last) - 1)]))] store &$0.state := 1; store &$0.last := $1; $0.output.Write($1) || [!((len($1) == 0)) && ($0.state == 0) && bytes.HasPrefix($1, "<?") && !(($0.last != nil))] store &$0.state := 1; store &$0.last := $1; $0.output.Write($1) || [!((len($1) == 0)) && ($0.state == 0) && !(bytes.HasPrefix($1, "<?")) && ($0.last != nil) && isValidVarName($0.last[(len($0.last) - 1)]) && isValidVarName($1[0])] $0.output.Write("<?php "); store &$0.state := 1; $0.output.Write(" "); store &$0.last := $1; $0.output.Write($1) || [!((len($1) == 0)) && ($0.state == 0) && !(bytes.HasPrefix($1, "<?")) && ($0.last != nil) && isValidVarName($0.last[(len($0.last) - 1)]) && !(isValidVarName($1[0]))] $0.output.Write("<?php "); store &$0.state := 1; store &$0.last := $1; $0.output.Write($1) || [!((len($1) == 0)) && ($0.state == 0) && !(bytes.HasPrefix($1, "<?")) && ($0.last != nil) && !(isValidVarName($0.last[(len($0.last) - 1)]))] $0.output.Write("<?php "); store &$0.state := 1; store &$0.last := $1; $0.output.Write($1) || [!((len($1) == 0)) && ($0.state == 0) && !(bytes.HasPrefix($1, "<?")) && !(($0.last != nil))] $0.output.Write("<?php "); store &$0.state := 1; store &$0.last := $1; $0.output.Write($1) || [!((len($1) == 0)) && !(($0.state == 0)) && ($0.last != nil) && isValidVarName($0.last[(len($0.last) - 1)]) && isValidVarName($1[0])] $0.output.Write(" "); store &$0.last := $1; $0.output.Write($1) || [!((len($1) == 0)) && !(($0.state == 0)) && ($0.last != nil) && isValidVarName($0.last[(len($0.last) - 1)]) && !(isValidVarName($1[0]))] store &$0.last := $1; $0.output.Write($1) || [!((len($1) == 0)) && !(($0.state == 0)) && ($0.last != nil) && !(isValidVarName($0.last[(len($0.last) - 1)]))] store &$0.last := $1; $0.output.Write($1) || [!((len($1) == 0)) && !(($0.state == 0)) && !(($0.last != nil))] store &$0.last := $1; $0.output.Write($1)
 //@ trace allow-write StmtInlineHtml "?>"
+
+// C15, default lexemes: the literal the printer substitutes for an absent token must be a lexeme of
+// a terminal the grammars store in that slot (checked by running the real lexer on the literal in
+// php mode). Three defaults are lexemes of their terminal only inside a string or heredoc body,
+// where the scanner is in another mode:
+//@ trace default-lexeme-ok ScalarEncapsedStringBrackets.OpenCurlyBracketTkn : `{` is T_CURLY_OPEN only in front of `$` inside an interpolated string
+//@ trace default-lexeme-ok ScalarEncapsedStringVar.DollarOpenCurlyBracketTkn : `${` is T_DOLLAR_OPEN_CURLY_BRACES only inside an interpolated string
+//@ trace default-lexeme-ok ScalarHeredoc.CloseHeredocTkn : the closing label `EOT` is T_END_HEREDOC only at the end of a heredoc body
